@@ -273,3 +273,299 @@ Proof.
   destruct (init_case_inv _ _ _ Ei) as (ND1 & ND2 & I0 & _ & _).
   destruct (run_legs_inv (case_cfg c) ND1 ND2 _ _ _ _ I0 Er) as (_ & _ & Hc). exact Hc.
 Qed.
+
+(** ** The torus cell system of Model/Occupancy.v satisfies [cellsys_ok] for all positive counts and all layer
+    numbers >= 0 (through the index theory of Proofs/CellIndexProofs.v). *)
+Require JF.Model.CellIndex JF.Proofs.CellIndexProofs JF.Proofs.FactorMapProofs.
+Module CI := JF.Model.CellIndex.
+Module CIP := JF.Proofs.CellIndexProofs.
+Module FMP := JF.Proofs.FactorMapProofs.
+
+Section Torus.
+  Local Open Scope Z_scope.
+
+  Lemma zip3_same f : forall a b c, Occupancy.zip3 f a b c = CI.zip3 f a b c.
+  Proof. induction a as [|x a IH]; intros [|y b] [|z c]; simpl; auto; try (f_equal; apply IH). Qed.
+
+  Lemma torus_translate_eq ns c r : torus_translate ns c r = CI.translate ns c r.
+  Proof. unfold torus_translate, CI.translate. apply zip3_same. Qed.
+
+  Lemma torus_relative_eq ns c r : torus_relative ns c r = CI.relative ns c r.
+  Proof. unfold torus_relative, CI.relative. apply zip3_same. Qed.
+
+  Lemma zrange_from_spec k : forall a x, In x (zrange_from a k) <-> a <= x < a + Z.of_nat k.
+  Proof.
+    induction k as [|k IH]; intros a x; simpl zrange_from.
+    - simpl. lia.
+    - simpl In. rewrite IH. lia.
+  Qed.
+
+  Lemma zrange_from_nodup k : forall a, NoDup (zrange_from a k).
+  Proof.
+    induction k as [|k IH]; intros a; simpl; constructor; auto. rewrite zrange_from_spec. lia.
+  Qed.
+
+  Lemma torus_cells_spec : forall ns x, In x (torus_cells ns) <-> CI.valid ns x.
+  Proof.
+    induction ns as [|n ns IH]; intros x; simpl.
+    - split.
+      + intros [<-|[]]. constructor.
+      + intros H. inversion H. auto.
+    - rewrite in_flat_map. split.
+      + intros (tl & Htl & Hx). apply in_map_iff in Hx. destruct Hx as (i & <- & Hi).
+        unfold zrange in Hi. apply zrange_from_spec in Hi.
+        constructor; [|apply IH; auto].
+        destruct (Z_le_gt_dec n 0); [replace (Z.to_nat n) with 0%nat in Hi by lia; simpl in Hi; lia|].
+        rewrite Z2Nat.id in Hi by lia. lia.
+      + intros H. inversion H as [|i n' tl ns' Hi Htl]; subst. exists tl. split; [apply IH; auto|].
+        apply in_map_iff. exists i. split; auto. unfold zrange. apply zrange_from_spec.
+        rewrite Z2Nat.id by lia. lia.
+  Qed.
+
+  Lemma torus_cells_nodup : forall ns, NoDup (torus_cells ns).
+  Proof.
+    induction ns as [|n ns IH]; simpl.
+    - constructor; [intros []|constructor].
+    - apply FMP.nodup_flat_map; auto.
+      + intros tl _. apply FMP.nodup_map_inj; [|apply zrange_from_nodup].
+        intros x y _ _ H. inversion H; auto.
+      + intros x y z _ _ Hne Hx Hy. apply in_map_iff in Hx. apply in_map_iff in Hy.
+        destruct Hx as (i & <- & _). destruct Hy as (j & E & _). inversion E; subst. contradiction.
+  Qed.
+
+  Lemma dedup_lz_in : forall l x, In x (dedup_lz l) <-> In x l.
+  Proof.
+    induction l as [|y r IH]; intros x; simpl; [tauto|].
+    destruct (existsb (list_Z_eqb y) r) eqn:E.
+    - rewrite IH. split; auto. intros [<-|H]; auto.
+      apply existsb_exists in E. destruct E as (z & Hz & Ez). apply list_Z_eqb_spec in Ez. subst; auto.
+    - simpl. rewrite IH. tauto.
+  Qed.
+
+  Lemma dedup_lz_nodup : forall l, NoDup (dedup_lz l).
+  Proof.
+    induction l as [|y r IH]; simpl; [constructor|].
+    destruct (existsb (list_Z_eqb y) r) eqn:E; auto.
+    constructor; auto. rewrite dedup_lz_in. intros H.
+    assert (existsb (list_Z_eqb y) r = true); [|congruence].
+    apply existsb_exists. exists y. split; auto. apply list_Z_eqb_spec; auto.
+  Qed.
+
+  Lemma torus_nearby_raw_spec l : 0 <= l -> forall ns c b, length c = length ns ->
+    (In b (torus_nearby_raw ns c l) <-> CIP.near l ns c b).
+  Proof.
+    intros Hl. induction ns as [|n ns IH]; intros [|x c] b Hlen; simpl in Hlen; try discriminate.
+    - simpl. destruct b; split; try tauto. intros [H|[]]. discriminate.
+    - cbn [torus_nearby_raw]. rewrite in_flat_map. destruct b as [|y b]; cbn [CIP.near].
+      + split; [|tauto]. intros (tl & _ & H). apply in_map_iff in H. destruct H as (i & E & _). discriminate.
+      + split.
+        * intros (tl & Htl & H). apply in_map_iff in H. destruct H as (i & E & Hi). inversion E; subst.
+          apply zrange_from_spec in Hi. rewrite Z2Nat.id in Hi by lia.
+          split; [|apply IH; auto].
+          exists (i - x). split; [lia|]. f_equal. lia.
+        * intros [(d & Hd & ->) Hn]. exists b. split; [apply IH; auto|].
+          apply in_map_iff. exists (x + d). split; auto.
+          apply zrange_from_spec. rewrite Z2Nat.id by lia. lia.
+  Qed.
+
+  Lemma torus_nearby_spec l ns c b : 0 <= l -> length c = length ns ->
+    (In b (torus_nearby ns l c) <-> CIP.near l ns c b).
+  Proof. intros Hl Hlen. unfold torus_nearby. rewrite dedup_lz_in. apply torus_nearby_raw_spec; auto. Qed.
+
+  Theorem torus_cs_ok ns l : Forall (fun n => 0 < n) ns -> 0 <= l -> cellsys_ok (torus_cs ns l).
+  Proof.
+    intros Hpos Hl.
+    assert (V : forall x, In x (torus_cells ns) <-> CI.valid ns x) by (apply torus_cells_spec).
+    assert (Z0 : map (fun _ : Z => 0) ns = CI.zero ns) by reflexivity.
+    constructor; simpl.
+    - apply torus_cells_nodup.
+    - rewrite Z0. apply V. apply CIP.valid_zero; auto.
+    - intros c _. apply dedup_lz_nodup.
+    - intros c c' Hc Hc'. apply V in Hc. apply V.
+      apply torus_nearby_spec in Hc'; auto; [|apply CIP.valid_length; auto].
+      eapply CIP.near_valid; eauto.
+    - intros a r Ha Hr. apply V in Ha. apply V in Hr. apply V. rewrite torus_translate_eq.
+      apply CIP.valid_translate; auto; apply CIP.valid_length; auto.
+    - intros c a Hc Ha. apply V in Ha. apply V in Hc. apply V. rewrite torus_relative_eq.
+      apply CIP.valid_relative; auto; apply CIP.valid_length; auto.
+    - intros a c Ha Hc. apply V in Ha. apply V in Hc. rewrite torus_translate_eq, torus_relative_eq.
+      apply CIP.translate_relative; auto.
+    - intros a r Ha Hr. apply V in Ha. apply V in Hr. rewrite torus_translate_eq, torus_relative_eq.
+      apply CIP.relative_translate; auto.
+    - intros a r Ha Hr. apply V in Ha. apply V in Hr. rewrite Z0.
+      assert (La : length a = length ns) by (apply CIP.valid_length; auto).
+      assert (Lz : length (CI.zero ns) = length ns) by (apply CIP.zero_length).
+      rewrite !torus_nearby_spec by (auto; rewrite torus_translate_eq; auto).
+      rewrite torus_translate_eq.
+      rewrite (CIP.near_translate l ns a (CI.translate ns a r) La). split.
+      + intros (z & Hz & E).
+        assert (Vz : CI.valid ns z) by (eapply CIP.near_valid; eauto).
+        apply (CIP.translate_injective ns a r z Ha Hr Vz) in E. subst. auto.
+      + intros H. exists r. auto.
+    - intros c Hc. apply V in Hc. rewrite Z0, torus_relative_eq. apply CIP.relative_zero; auto.
+  Qed.
+End Torus.
+
+(** ** C10 on accepted real runs *)
+Lemma remove_one_lz_spec x : forall l l', remove_one_lz x l = Some l' -> Permutation l (x :: l').
+Proof.
+  induction l as [|y r IH]; simpl; intros l' H; [discriminate|].
+  destruct (list_Z_eqb x y) eqn:E.
+  - apply list_Z_eqb_spec in E. inversion H; subst. reflexivity.
+  - destruct (remove_one_lz x r) as [r'|]; [|discriminate]. inversion H; subst.
+    rewrite (IH r' eq_refl). apply perm_swap.
+Qed.
+
+Lemma same_members_perm : forall a b, same_members a b = true -> Permutation a b.
+Proof.
+  induction a as [|x r IH]; simpl; intros b H.
+  - destruct b; [constructor|discriminate].
+  - destruct (remove_one_lz x b) as [b'|] eqn:E; [|discriminate].
+    rewrite (remove_one_lz_spec _ _ _ E). constructor. apply IH; auto.
+Qed.
+
+Lemma tuple_eqb_targets a b : tuple_eqb a b = true -> Permutation (tl a) (tl b).
+Proof.
+  destruct a as [|x a], b as [|y b]; simpl; intros H; try discriminate; auto.
+  apply andb_true_iff in H. apply same_members_perm. tauto.
+Qed.
+
+Lemma remove_tuple_spec x : forall l l', remove_tuple x l = Some l' ->
+  exists y, tuple_eqb x y = true /\ Permutation l (y :: l').
+Proof.
+  induction l as [|y r IH]; simpl; intros l' H; [discriminate|].
+  destruct (tuple_eqb x y) eqn:E.
+  - inversion H; subst. exists y. split; auto.
+  - destruct (remove_tuple x r) as [r'|]; [|discriminate]. inversion H; subst.
+    destruct (IH r' eq_refl) as (z & Ez & P). exists z. split; auto.
+    rewrite P. apply perm_swap.
+Qed.
+
+Lemma same_tuples_targets : forall a b, same_tuples a b = true ->
+  Permutation (targets_of a) (targets_of b).
+Proof.
+  induction a as [|x r IH]; simpl; intros b H.
+  - destruct b; [constructor|discriminate].
+  - destruct (remove_tuple x b) as [b'|] eqn:E; [|discriminate].
+    destruct (remove_tuple_spec _ _ _ E) as (y & Ey & P).
+    unfold targets_of in *. rewrite (Permutation_flat_map _ P). simpl.
+    apply Permutation_app; [apply tuple_eqb_targets; auto|apply IH; auto].
+Qed.
+
+(** the cell recorded for every relevant unit lies in the grid, at every leg *)
+Lemma aget_in (m : cmap) k v : aget list_Z_eqb m k = Some v -> In (k, v) m.
+Proof.
+  induction m as [|[k' v'] r IH]; simpl; [discriminate|].
+  destruct (list_Z_eqb k' k) eqn:E.
+  - apply list_Z_eqb_spec in E. intros H; inversion H; subst. auto.
+  - auto.
+Qed.
+
+Definition cells_valid (cfg : rcfg) (cl : cmap) : Prop :=
+  forall u, In u (rc_units cfg) -> In (cellof_of cl u) (rc_cells cfg).
+
+Lemma step_leg_valid cfg s cl l s' cl' : step_leg cfg s cl l = Some (s', cl') -> cells_valid cfg cl'.
+Proof.
+  unfold step_leg. intros H.
+  destruct (hyps_ok _ _ _ _ _ _ && crossing_ok _ _ _ _) eqn:Hk; [|discriminate].
+  apply andb_true_iff in Hk. destruct Hk as [Hh _].
+  destruct (update _ _ _ _ _ _); [|discriminate]. destruct (snap_eqb _ _); [|discriminate].
+  inversion H; subst. unfold hyps_ok in Hh.
+  repeat (apply andb_true_iff in Hh; let H' := fresh "K" in destruct Hh as [Hh H']).
+  rewrite forallb_forall in K3. intros u Hu. apply mem_lz_spec. apply K3; auto.
+Qed.
+
+Lemma run_legs_valid cfg : forall legs s cl rest, run_legs cfg s cl legs = Some rest ->
+  Forall (fun sc => cells_valid cfg (snd sc)) rest.
+Proof.
+  induction legs as [|l lr IH]; intros s cl rest H; simpl in H.
+  - inversion H; constructor.
+  - destruct (step_leg cfg s cl l) as [[s' cl']|] eqn:E; [|discriminate].
+    destruct (run_legs cfg s' cl' lr) as [rr|] eqn:Er; [|discriminate]. inversion H; subst.
+    constructor; [simpl; eapply step_leg_valid; eauto|eapply IH; eauto].
+Qed.
+
+Lemma init_case_valid c s0 cl0 : init_case c = Some (s0, cl0) -> cells_valid (case_cfg c) cl0.
+Proof.
+  unfold init_case. intros H.
+  destruct (nodup_lz (rc_cells (case_cfg c)) && nodup_lz (map fst (case_cl0 c))
+            && forallb (fun uc => mem_lz (snd uc) (rc_cells (case_cfg c))) (case_cl0 c)) eqn:Hk; [|discriminate].
+  apply andb_true_iff in Hk. destruct Hk as [_ K3]. rewrite forallb_forall in K3.
+  destruct (initialize _ _ _ _); [|discriminate]. destruct (snap_eqb _ _); [|discriminate].
+  inversion H; subst. intros u Hu.
+  simpl in Hu. unfold case_units in Hu. apply in_map_iff in Hu. destruct Hu as (x & Ex & Hx).
+  apply filter_In in Hx. destruct Hx as [Hx _].
+  assert (Hk : In u (map fst (case_cl0 c))).
+  { unfold case_cl0. rewrite map_map. apply in_map_iff. exists x. auto. }
+  destruct (aget_some_in _ _ list_Z_eqb list_Z_eqb_spec _ _ Hk) as (v & Ev).
+  unfold cellof_of. rewrite Ev. simpl. apply mem_lz_spec. apply (K3 (u, v)). apply aget_in; auto.
+Qed.
+
+(** what acceptance says at one recorded state: with a relevant active unit, the targets of the RECORDED generations of
+    the nearby and the surplus tagger together with the far family -- the model's cell-veto targets of the replayed
+    state (= the recorded internals), or the targets of the recorded generation of a cell-bounding tagger -- are a
+    permutation of the other relevant units *)
+Definition partition_at (cs : cellsys lz) (units : list lz) (sc : ost * cmap) (gens : list tgen) : Prop :=
+  forall a, active_id (fst sc) = Some a ->
+  forall rn rs, In (mkTGen TNearby true rn) gens -> In (mkTGen TSurplus true rs) gens ->
+    Permutation (cell_veto_targets list_Z_eqb cs (fst sc) ++ targets_of rn ++ targets_of rs)
+                (others list_Z_eqb (fst sc) units)
+    /\ (forall rb, In (mkTGen TBounding true rb) gens ->
+                   Permutation (targets_of rb ++ targets_of rn ++ targets_of rs) (others list_Z_eqb (fst sc) units)).
+
+Theorem run_cells_partition (c : tcase) :
+  check_tcase_run c = true ->
+  exists states,
+    run_case (tc_o c) = Some states
+    /\ Forall2 (partition_at (case_cs c) (case_units (tc_o c))) states (tc_gens c).
+Proof.
+  unfold check_tcase_run. intros H.
+  apply andb_true_iff in H. destruct H as [H Hg]. apply andb_true_iff in H. destruct H as [Hpos Hl].
+  assert (OK : cellsys_ok (case_cs c)).
+  { apply torus_cs_ok.
+    - apply Forall_forall. intros n Hn. rewrite forallb_forall in Hpos. apply Z.ltb_lt. auto.
+    - apply Z.leb_le; auto. }
+  destruct (run_case (tc_o c)) as [states|] eqn:E; [|discriminate].
+  exists states. split; auto.
+  (* invariant and validity at every state *)
+  assert (Hinv : Forall (fun sc => occ_inv_lz (torus_cells (oc_counts (tc_o c))) (fst sc) (case_units (tc_o c))
+                                              (cellof_of (snd sc))
+                                   /\ cells_valid (case_cfg (tc_o c)) (snd sc)) states).
+  { destruct (run_occ_inv (tc_o c)) as (st' & E' & _ & _ & _ & F).
+    { unfold check_ocase. rewrite E. reflexivity. }
+    rewrite E in E'. inversion E'; subst st'.
+    unfold run_case in E.
+    destruct (init_case (tc_o c)) as [[s0 cl0]|] eqn:Ei; [|discriminate].
+    destruct (run_legs (case_cfg (tc_o c)) s0 cl0 (oc_legs (tc_o c))) as [rest|] eqn:Er; [|discriminate].
+    inversion E; subst states.
+    pose proof (init_case_valid _ _ _ Ei) as V0. pose proof (run_legs_valid _ _ _ _ _ Er) as Vr.
+    inversion F as [|? ? F0 Fr]; subst. constructor; [split; auto|].
+    clear - Fr Vr. induction Fr; inversion Vr; subst; constructor; auto. }
+  assert (ND : NoDup (case_units (tc_o c))).
+  { destruct (run_occ_inv (tc_o c)) as (st' & _ & _ & _ & ND & _); auto.
+    unfold check_ocase. rewrite E. reflexivity. }
+  clear E. revert Hg Hinv. generalize (tc_gens c) as gens.
+  induction states as [|sc sr IH]; intros [|g gr] Hg Hinv; simpl in Hg; try discriminate; [constructor|].
+  apply andb_true_iff in Hg. destruct Hg as [Hg1 Hg2].
+  inversion Hinv as [|? ? [I V] Hr]; subst.
+  constructor; [|apply IH; auto].
+  rewrite forallb_forall in Hg1.
+  intros a Ea rn rs Hn Hs.
+  assert (Hv : forall u, In u (case_units (tc_o c)) -> In (cellof_of (snd sc) u) (cs_cells (case_cs c))) by exact V.
+  assert (I' : occ_inv_lz (cs_cells (case_cs c)) (fst sc) (case_units (tc_o c)) (cellof_of (snd sc))) by exact I.
+  pose proof (cells_partition _ _ list_Z_eqb list_Z_eqb list_Z_eqb_spec (case_cs c) OK _ _ Hv (fst sc) a I' Ea) as P.
+  pose proof (Hg1 _ Hn) as Gn. pose proof (Hg1 _ Hs) as Gs. unfold gen_ok in Gn, Gs. simpl in Gn, Gs.
+  apply same_tuples_targets in Gn. apply same_tuples_targets in Gs.
+  change (targets_of (excluded_cells_tagger list_Z_eqb (case_cs c) (fst sc)))
+    with (nearby_targets list_Z_eqb (case_cs c) (fst sc)) in Gn.
+  change (targets_of (surplus_cells_tagger (fst sc))) with (surplus_targets (fst sc)) in Gs.
+  split.
+  - rewrite <- Gn, <- Gs. exact P.
+  - intros rb Hb. pose proof (Hg1 _ Hb) as Gb. unfold gen_ok in Gb. simpl in Gb.
+    apply same_tuples_targets in Gb.
+    change (targets_of (cell_bounding_tagger list_Z_eqb (case_cs c) (fst sc)))
+      with (bounding_targets list_Z_eqb (case_cs c) (fst sc)) in Gb.
+    rewrite <- Gb, <- Gn, <- Gs.
+    rewrite (cell_bounding_same_targets _ _ list_Z_eqb list_Z_eqb list_Z_eqb_spec (case_cs c) OK _ _ Hv (fst sc) a I' Ea).
+    exact P.
+Qed.
